@@ -106,7 +106,10 @@ M = [
  ("search-leaf-ignores-depth", "src/alpha_beta_searcher/mod.rs", "    if candidates.is_empty() {\n        let score = evaluate::score(board, move_generator, current_turn, depth);", "    if candidates.is_empty() {\n        let score = evaluate::score(board, move_generator, current_turn, 0);", "violation", ["C08"]),
  ("search-child-same-side", "src/alpha_beta_searcher/mod.rs", "                    alpha,\n                    beta,\n                    false,\n                )", "                    alpha,\n                    beta,\n                    true,\n                )", "violation", ["C08"]),
  ("search-returns-unsearched-move-c08", "src/alpha_beta_searcher/mod.rs", "        (score, chess_move.clone())\n", "        (score, candidates[0].clone())\n", "violation", ["C08"]),
- ("benign-search-strict-cutoff", "src/alpha_beta_searcher/mod.rs", "            beta = min(beta, value);\n            if beta <= alpha {", "            beta = min(beta, value);\n            if beta < alpha {", "ok", ["C08", "C07"]),
+ # value-preserving (believed), but the recursion is then entered with alpha == beta, which the contract
+ # (proper window) excludes and the ORIGINAL cut-off rule needs: a known false-alarm class for C08 (DESIGN 11.8)
+ ("benign-search-strict-cutoff", "src/alpha_beta_searcher/mod.rs", "            beta = min(beta, value);\n            if beta <= alpha {", "            beta = min(beta, value);\n            if beta < alpha {", "violation", ["C08"]),
+ ("benign-search-strict-cutoff-c07", "src/alpha_beta_searcher/mod.rs", "            beta = min(beta, value);\n            if beta <= alpha {", "            beta = min(beta, value);\n            if beta < alpha {", "ok", ["C07"]),
  ("benign-search-toggle-before-undo-c08", "src/alpha_beta_searcher/mod.rs", "            chess_move.undo(board).unwrap();\n            board.toggle_turn();\n\n            alpha = max(alpha, value);", "            board.toggle_turn();\n            chess_move.undo(board).unwrap();\n\n            alpha = max(alpha, value);", "ok", ["C08"]),
  # ---- the parallel perft entry point (C10, rule R20)
  ("perft-root-wrong-depth", "src/move_generator/mod.rs", "            let local_count = count_positions_inner(\n                depth - 1,", "            let local_count = count_positions_inner(\n                depth,", "violation", ["C10"]),
